@@ -216,7 +216,25 @@ func (r *Replayer) runExportImport(k int, c *Concrete, q *Query, fail func(exp, 
 		}
 		cph := chainhash.Hash(c.hashBytes(cpID))
 		saved := config.Checkpoints
-		config.Checkpoints = []chaincfg.Checkpoint{{Height: int32(a.Cp), Hash: &cph}}
+		// The specification's verdict speaks about the NEWEST checkpoint only; the list the code is configured with is a
+		// dimension the model leaves open.  It is varied here: the newest alone, with the genuine longest-chain header one
+		// below it as an older checkpoint, or with every genuine longest-chain header below it (a file that ends exactly at
+		// the newest checkpoint and is wrong only above the older ones must still be refused).
+		var cps []chaincfg.Checkpoint
+		if variant := (r.cur + k) % 3; variant != 0 {
+			for h := 0; h < a.Cp; h++ {
+				if variant == 1 && h != a.Cp-1 {
+					continue
+				}
+				for id := range c.HashStr {
+					if row, ok := orig[c.HashOf(id)]; ok && row.State == "LONGEST_CHAIN" && row.Height == h {
+						oh := chainhash.Hash(c.hashBytes(id))
+						cps = append(cps, chaincfg.Checkpoint{Height: int32(h), Hash: &oh})
+					}
+				}
+			}
+		}
+		config.Checkpoints = append(cps, chaincfg.Checkpoint{Height: int32(a.Cp), Hash: &cph})
 		defer func() { config.Checkpoints = saved }()
 		db, err := database.Init(cfg, &r.S.log)
 		if verdict == "refuse" {
